@@ -535,6 +535,10 @@ func extractAddressInfos(pkScript []byte) (scriptClass txscript.ScriptClass, rec
 		recipient = std.EncodeAddress()
 		staking = addrs[0].EncodeAddress()
 	case txscript.BindingScriptHashTy:
+		if len(addrs) < 2 {
+			// the consensus library has no address for this binding target (unknown type or size)
+			return 0, "", "", "", 0, fmt.Errorf("binding target of output script cannot be encoded")
+		}
 		targetType := "MASS"
 		targetSize := 0
 		if len(addrs[1].ScriptAddress()) == 22 {
